@@ -1,5 +1,5 @@
 /*@harness
-{"tier":"quick","mode":"bounded(value text of at most 7 characters over every byte value except '[' and '/' (no mappings, no classes), NUL terminated at the end of its buffer; arrays of at most 3 elements)","tus":["lib/lpc/object.c"],"dfcc":false,
+{"tier":"quick","mode":"bounded(value text of at most 6 characters over every byte value except '[' and '/' (no mappings, no classes), NUL terminated at the end of its buffer; arrays of at most 2 elements)","tus":["lib/lpc/object.c"],"dfcc":false,
  "stub_out":["object.c:restore_mapping","object.c:restore_class"],
  "functions":["restore_svalue","restore_array","restore_size","restore_internal_size","restore_interior_string","restore_string","parse_numeric"],
  "flags":["--bounds-check","--pointer-check","--no-malloc-may-fail","--object-bits","10","--unwindset","__CPROVER_file_local_object_c_restore_array:2,__CPROVER_file_local_object_c_restore_internal_size:3"],"unwind":9,"timeout":1500,
@@ -47,16 +47,16 @@ char *int_new_string(size_t n) {
 void h_restore_array(void) {
   static svalue_t v;
   V_FILL(main_options_t, G_opts, opts); g_main_options = &G_opts;
-  V_DECL(int, len); V_ASSUME(2 <= len && len <= 7);
-  V_DECL(char, c2); V_DECL(char, c3); V_DECL(char, c4); V_DECL(char, c5); V_DECL(char, c6);
+  V_DECL(int, len); V_ASSUME(2 <= len && len <= 6);
+  V_DECL(char, c2); V_DECL(char, c3); V_DECL(char, c4); V_DECL(char, c5); char c6 = 0;
   char t[7] = {'(', '{', c2, c3, c4, c5, c6};           /* an array value: the text starts with "({" */
   char *start = &G_buf[8 - len];
   for (int i = 0; i < 7; i++) if (i < len) { V_ASSUME(t[i] != 0 && t[i] != '[' && t[i] != '/'); start[i] = t[i]; }
   G_buf[8] = 0;
-  V_COVER(len == 7 && c2 == '1' && c3 == ',' && c4 == ',' && c5 == '}' && c6 == ')');
-  V_COVER(len == 6 && c2 == '"');
+  V_COVER(len == 6 && c2 == '1' && c3 == ',' && c4 == '}' && c5 == ')');
+  V_COVER(len == 5 && c2 == '"');
   int r = restore_svalue(start, &v);
   V_ASSERT(r != 0 || v.type == T_ARRAY, "the parser answers an error or yields an array");
-  V_COVER(r == 0 && len == 7);
+  V_COVER(r == 0 && len == 6);
   V_COVER(r == 0 && len == 4);
 }
